@@ -36,6 +36,8 @@ const (
 	idOuterSub = "C02-outer-join-false-on-subquery"
 	idRHFilter = "C01-rangeheap-drops-index-filter"
 	idRHType   = "C01-rangeheap-mixed-type-compare"
+	idHashDec  = "C01-hashjoin-decimal-scale-key"
+	idNestSort = "C01-nested-sort-drops-order-by"
 )
 
 // hashCoster assigns every physical alternative a pseudo-random but deterministic cost
@@ -257,6 +259,12 @@ func TestC01(t *testing.T) {
 			// range predicate compares columns of different numeric types
 			if kf.Listed(idRHType) && hasOp(o, "RangeHeap") && a.mixedKindRange() {
 				st.Excluded(idRHType)
+				continue
+			}
+			// region of C01-nested-sort-drops-order-by (while listed): ORDER BY over a range heap
+			// join that sorts a derived table
+			if kf.Listed(idNestSort) && hasOp(o, "RangeHeap") && a.labels["derived"] && len(q.OrderBy) > 0 {
+				st.Excluded(idNestSort)
 				continue
 			}
 			if o.res.TimedOut {
